@@ -38,7 +38,7 @@ Definition dim_dataset (i : nat) : string * obj :=
 Definition own (c : cls) (tok : Z) (rank : nat) : list (string * obj) :=
   match c with
   | CArray => ("data", D [("units", AStr "")] (repeat 3 rank) tok) :: map dim_dataset (seq 0 rank)
-  | CPl => [("x", D [("dtype", AStr "int64")] [2] tok)]
+  | CPl => [("x", D [("dtype", AStr "int64")] [if Z.eqb tok 0 then 0 else 2] tok)]     (* token 0 = a PointList of no points *)
   | CPla => [("data", D [] [1; 2] tok)]
   | _ => []
   end.
